@@ -362,9 +362,29 @@ def rule_isel(b):
                 imm_values += [0xFFFF << (16 * hw) if hw < 3 else -(1 << 48), 0x1234 << (16 * hw) if hw < 3 else 0x1234 << 47]
             imm_values += [rnd.randrange(-(1 << 63), 1 << 63) for _ in range(64)]
             imm_values = sorted({v for v in imm_values if -(1 << 63) <= v < (1 << 63)})
+        # the literal reaches load_immediate through Config::i64_to_immediate (Literal::code_statement): fold that conversion too
+        ck = [k for k in ctx.fx.fns if k.startswith(cfg_prefix) and k.endswith(">::i64_to_immediate")]
+        if len(ck) != 1:
+            raise AnalysisError("R-ISEL: Config::i64_to_immediate of %s not found" % b)
+        conv = {}
+        conv_bad = []
+        for val in imm_values:
+            outs = backend.fold(ctx, ck[0], [val])[1]
+            r = outs[0].result if len(outs) == 1 else None
+            got = r.fields.get("val") if isinstance(r, Adt) else r
+            conv[val] = r
+            if not isinstance(got, int) or isinstance(got, bool) or got != val:
+                conv_bad.append((val, got))
+        fc = ctx.fx.fns[ck[0]]
+        if conv_bad:
+            res.inst(b + ":i64_to_immediate", fc["sp"]["file"], fc["sp"]["line"], "violation")
+            res.violate(b + ":i64_to_immediate", "i64_to_immediate(%d) yields %r: the literal of the program is not the value loaded [%d of %d boundary values wrong]"
+                        % (conv_bad[0][0], conv_bad[0][1], len(conv_bad), len(imm_values)), fc["sp"]["file"], fc["sp"]["line"])
+        else:
+            res.inst(b + ":i64_to_immediate", fc["sp"]["file"], fc["sp"]["line"], "ok", "%d boundary values" % len(imm_values))
         for t in P:
             for val in imm_values:
-                imm = Adt(IMM, "Immediate", {"val": val}) if IMM else val
+                imm = conv[val] if conv.get(val) is not None else (Adt(IMM, "Immediate", {"val": val}) if IMM else val)
                 codes = fold_list(key, [t, imm], 2)
                 n += 1
                 if codes is None:
@@ -431,7 +451,7 @@ def rule_isel(b):
                                                                                              " | ".join(map(repr, codes))[:300]), f["sp"]["file"], f["sp"]["line"])
                 else:
                     res.inst(ikey, f["sp"]["file"], f["sp"]["line"], "ok", "%d placements" % n)
-        res.require_floor(18)
+        res.require_floor(19)
         return res
     rule.__name__ = "rule_isel_" + b
     return rule
